@@ -167,9 +167,22 @@ def c_case(case, res):
 
 # ---------------------------------------------------------------- running
 
+def crashed(case, reason):
+    if case.get('kind') == 'slice':
+        return {'slice': [], 'fails': []}
+    return {'load_code': 12, 'index': None, 'vcounts': None, 'tri_code': 0, 'tri_index': None, 'pp': None,
+            'fails': [{'clause': 'crash-or-hang', 'site': '%s:worker' % case.get('kind'),
+                       'detail': 'the implementation did not survive this document: ' + reason}]}
+
+
 def run_impl_cases(cases):
+    from concurrent.futures import ThreadPoolExecutor
     chunks = [cases[i:i + 300] for i in range(0, len(cases), 300)]
-    outs = core.run_impl_parallel('c11', [{'cases': ch} for ch in chunks])
+
+    def one(ch):
+        return core.run_cases_bisect('c11', ch, lambda cs: {'cases': cs}, crashed, timeout=180)
+    with ThreadPoolExecutor(max_workers=core.NCPU) as ex:
+        outs = list(ex.map(one, chunks))
     return [r for out in outs for r in out]
 
 
